@@ -41,6 +41,16 @@ def check(run):
                 d.append(rng.choice(idnalib.DOTS) if rng.random() < 0.3 else 0x2e)
             d += idnalib.gen_label(rng, 4, joiners=0.03)
         base.append(d)
+    # every Hangul trailing consonant after a precomposed LV syllable (the NFC quick check has a branch per jamo range),
+    # and every LV-range boundary
+    for t in range(0x11A7, 0x11C4):
+        for _ in range(2):
+            lv = 0xAC00 + 28 * rng.randrange(19 * 21)
+            base.append([lv, t])
+            base.append([0x61, 0x2e, lv, t, rng.choice([0x61, 0xAC00, 0x1161])])
+    for v in (0x1160, 0x1161, 0x1175, 0x1176):
+        for l in (0x10FF, 0x1100, 0x1112, 0x1113):
+            base.append([l, v, rng.choice([0x11A8, 0x11C2, 0x61])])
     nfd = [cps(x) for x in oracle(["nfd " + show(d) for d in base])]
     nfc = [cps(x) for x in oracle(["nfc " + show(d) for d in base])]
     groups = []
